@@ -121,14 +121,42 @@ def _rand_crystal(rng, dim):
     return crystal.Crystal(L, basis)
 
 
+def redescribe(crys, M):
+    """the same crystal with primitive vectors L.M (M integer, det +-1), description kept as given"""
+    from onsager import crystal
+    Mi = np.round(np.linalg.inv(M)).astype(int)
+    basis = [[(Mi @ u) % 1.0 for u in b] for b in crys.basis]
+    return crystal.Crystal(crys.lattice @ M, basis, chemistry=crys.chemistry, noreduce=True)
+
+
+def _unimodular(rng, dim, n):
+    """n integer matrices with determinant +-1: the first always has det -1 (left-handed set)"""
+    res = []
+    while len(res) < n:
+        perm = list(range(dim)); rng.shuffle(perm)
+        M = np.zeros((dim, dim), dtype=int)
+        for a, b in enumerate(perm): M[b, a] = rng.choice([1, 1, -1])
+        if rng.random() < 0.5:      # shear
+            a, b = rng.sample(range(dim), 2)
+            S = np.eye(dim, dtype=int); S[a, b] = rng.choice([1, -1]); M = M @ S
+        det = int(round(np.linalg.det(M)))
+        if not res and det != -1: continue
+        if np.array_equal(M, np.eye(dim, dtype=int)): continue
+        res.append(M)
+    return res
+
+
 def build_networks(ctx):
     """[(name, crys, chem, sitelist, jumpnetwork, tags)]"""
     from onsager import crystal
     out = []
+    cutoffs = {'int:' + z[0]: z[3] for z in ic.zoo()}
     for name, crys, chem, sl, jn in ic.networks():
         out.append(('int:' + name, crys, chem, sl, jn, set()))
     for nm, (crys, chem, cut) in vc.crystals().items():
+        cutoffs['vac:' + nm] = cut
         out.append(('vac:' + nm, crys, chem, crys.sitelist(chem), crys.jumpnetwork(chem, cut), set()))
+    nbase = len(out)
     # symmetry-closed disconnected sub-networks (lists "can also be editted or constructed by hand")
     sc = crystal.Crystal(np.eye(3), [np.zeros(3)], chemistry=['A'])
     for pos, nm in ((np.array([.2, .2, .2]), 'sc-xxx'), (np.array([.3, 0., 0.]), 'sc-x00')):
@@ -155,6 +183,29 @@ def build_networks(ctx):
     jn3 = c3.jumpnetwork(0, 1.2)
     slow = [k for k, cls in enumerate(jn3) if abs(np.linalg.norm(cls[0][1]) - 0.403) < 0.01 or cls[0][0][0] == cls[0][0][1]]
     out.append(('aniso:zigzag2d', c3, 0, c3.sitelist(0), jn3, {'cutoff=1.2', 'slow=' + ','.join(map(str, slow))}))
+    # re-descriptions of the same crystals: other primitive vectors (unimodular change of basis, det +1 AND -1, i.e.
+    # also left-handed sets), kept as given (noreduce=True).  Every oracle applies unchanged, and the Green function
+    # must agree with the original description at the same physical separation.
+    cheap = ['vac:fcc', 'vac:hcp', 'int:hcp-self', 'int:square2d-int', 'vac:tri2d', 'vac:rumpled', 'int:oblique2d-2site',
+             'vac:bcc', 'int:fcc-oct+tet', 'vac:rect2d-2site', 'int:honeycomb2d-self', 'vac:triclinic']
+    base = [o[0] for o in out[:nbase]]
+    chosen = ctx.rng.sample(cheap, 3) if ctx.quick else base
+    for nm in chosen:
+        idx0 = base.index(nm)
+        _, crys, chem, sl, jn, _t = out[idx0]
+        for M in _unimodular(ctx.rng, crys.dim, 1 if ctx.quick else 2):
+            try:
+                c2 = redescribe(crys, M)
+                jn2 = c2.jumpnetwork(chem, cutoffs[nm])
+                sl2 = c2.sitelist(chem)
+            except Exception as e:
+                ctx.note('re-description of %s with M=%s not built: %r' % (nm, M.tolist(), e)); continue
+            if sorted(len(c) for c in jn2) != sorted(len(c) for c in jn) or len(sl2) != len(sl):
+                # jump-network completeness on skewed cells is C21's property, not this one
+                ctx.note('re-description of %s with M=%s has a different jump network; skipped' % (nm, M.tolist())); continue
+            det = int(round(np.linalg.det(M)))
+            out.append(('redesc:%s:%s' % (nm, ''.join(str(int(x)) for x in M.flatten()).replace('-', 'm')), c2, chem, sl2, jn2,
+                        {'orig=%d' % idx0, 'det=%+d' % det, 'M=' + str(M.tolist()), 'cutoff=%g' % cutoffs[nm], 'noreduce'}))
     # random low-symmetry crystals
     nrand = 2 if ctx.quick else 40
     tries = 0
@@ -275,6 +326,7 @@ def work(task):
     for kind, sq in datasets:
         if kind == 'square':
             for k in slowcls: sq['preT'][k] = sq['preT'][k] / 10
+            if slowcls: sq['eneT'] = [sq['eneT'][0]] * len(sq['eneT'])     # controlled anisotropy: only the 1/10 coupling
             args = square_args(sq)
             datarep = dict(kind='square', qh=str(QH), spre=[str(x) for x in sq['spre']], ene=sq['ene'], preT=[str(x) for x in sq['preT']], eneT=sq['eneT'])
         elif kind == 'generic' and prev_args is not None and rng.random() < 0.35:
@@ -285,6 +337,7 @@ def work(task):
         else:
             args = rand_generic_args(rng, len(sl), len(jn), rng.choice([0.0, 0.5, 1.5, 3.0]))
             for k in slowcls: args[2][k] = args[2][k] / 10
+            if slowcls: args = (args[0], args[1], args[2], [args[3][0]] * len(args[3]))
             datarep = dict(kind='generic', pre=args[0], betaene=args[1], preT=args[2], betaeneT=args[3])
         prev_args = args
         rep0 = dict(desc, data=datarep)
@@ -493,6 +546,60 @@ def work(task):
                             viol('pole:%s' % rtag, 'far field: G(%d,%d,x)=%.6g vs continuum pole %.6g (|difference| %.3g > %.3g = 4 leff/|x| |pole| + 3 x next asymptotic terms) at %d cells along a%d on %s'
                                  % (i, j, g, pole, abs(g - pole), bound, qgrid[d], d, name),
                                  dict(rep0, i=i, j=j, dx=x.tolist(), G=g, pole=pole, D=D.tolist(), rho=rho.tolist(), bound=bound, next_terms=nxt))
+        # ---- the same crystal in its original description: G must agree at the same physical separation
+        orig = [int(t[5:]) for t in tags if t.startswith('orig=')]
+        if orig:
+            try:
+                oname, ocrys, ochem, osl, ojn, _ot = NETS[orig[0]]
+                gfo4, gfo6 = _calc(orig[0], 4), _calc(orig[0], 6)
+                oinv = [int(w) for w in gfo4.invmap]
+
+                def find_site(xc, ch):
+                    for io in range(len(ocrys.basis[ch])):
+                        d = np.linalg.solve(ocrys.lattice, xc) - ocrys.basis[ch][io]
+                        if np.abs(d - np.round(d)).max() < 1e-6: return io
+                    return None
+                # the constructor may re-centre the basis: the two descriptions agree up to one global translation
+                smap = None
+                for io in range(N):
+                    t = crys.lattice @ crys.basis[chem][0] - ocrys.lattice @ ocrys.basis[ochem][io]
+                    if all(find_site(crys.lattice @ u - t, ch) is not None for ch in range(len(crys.basis)) for u in crys.basis[ch]):
+                        smap = [find_site(crys.lattice @ crys.basis[chem][i] - t, chem) for i in range(N)]
+                        break
+                if smap is None or sorted(smap) != list(range(N)): raise StopIteration
+                wmap = {}
+                for i in range(N): wmap[oinv[smap[i]]] = invmap[i]                    # orig Wyckoff -> this Wyckoff
+                kmap = []
+                for ocl in ojn:
+                    (io, jo), odx = ocl[0]
+                    kmap.append(next(k for k, cl in enumerate(jn) if any(smap[a] == io and smap[b] == jo and np.abs(dx - odx).max() < 1e-6
+                                                                         for (a, b), dx in cl)))
+                oargs = ([args[0][wmap[w]] for w in range(len(osl))], [args[1][wmap[w]] for w in range(len(osl))],
+                         [args[2][k] for k in kmap], [args[3][k] for k in kmap])
+                gfo4.SetRates(*oargs); gfo6.SetRates(*oargs)
+                for key in rng.sample(keys, min(len(keys), 10)):
+                    k, j, z = key
+                    x = zcart(z)
+                    a4, a6 = call(gfo4, smap[k], smap[j], x, 4), call(gfo6, smap[k], smap[j], x, 6)
+                    if a4 is None or a6 is None: continue
+                    tol = 5 * abs(G4[key] - G6[key]) + 5 * abs(a4 - a6) + FLOOR * gscale
+                    d_here, d_orig = G4[key], a4
+                    if dim == 2:
+                        key0 = next(kk for kk in keys if kk[0] == k and kk[1] == j)
+                        b4, b6 = call(gfo4, smap[k], smap[j], zcart(key0[2]), 4), call(gfo6, smap[k], smap[j], zcart(key0[2]), 6)
+                        if b4 is None or b6 is None: continue
+                        d_here, d_orig = G4[key] - G4[key0], a4 - b4
+                        tol += 5 * abs(G4[key0] - G6[key0]) + 5 * abs(b4 - b6)
+                    rec['cases'].append((('redescription', name, kind, key), True))
+                    count('redescription-compared')
+                    if not abs(d_here - d_orig) <= tol:
+                        viol('redescription:%s' % rtag, 'G(%d,%d,dx)=%.10g on %s but %.10g for the same sites, separation and rates in the original description %s (%s)'
+                             % (k, j, d_here, name, d_orig, oname, 'differences' if dim == 2 else 'values'),
+                             dict(rep0, i=k, j=j, dx=x.tolist(), here=d_here, original=d_orig, tol=tol, original_network=oname))
+            except StopIteration:
+                rec['notes'].append('%s: sites/jumps could not be matched to the original description; comparison skipped' % name)
+            except Exception as e:
+                viol('redescription-raises:%s:%s' % (type(e).__name__, name), 'original description of %s: %r' % (name, e), rep0)
         # ---- Lean requests (square data only)
         if kind == 'square' and not python_only and lean_pts:
             nl = net_line(N, dim, invmap, ljumps, sq)
@@ -627,7 +734,8 @@ def run(ctx):
         core = ['int:fcc-oct+tet', 'int:hcp-oct+tet', 'int:zincblende-int', 'int:square2d-int', 'int:oblique2d-2site',
                 'vac:rumpled', 'disc:sc-x00-self', 'disc:fcc-oo+tt', 'disc:sq2d-oo+ee', 'lowsym:p1-2site', 'aniso:zigzag2d']
         rest = [n for n in names if n not in core and not n.startswith('rand:')]
-        pick = core + ctx.rng.sample(rest, 3) + [n for n in names if n.startswith('rand:')]
+        rest = [n for n in rest if not n.startswith('redesc:')]
+        pick = core + ctx.rng.sample(rest, 3) + [n for n in names if n.startswith('rand:') or n.startswith('redesc:')]
         tasks = [(names.index(n), ctx.rng.getrandbits(32), 1, 1, 3, 8, False) for n in pick]
     else:
         tasks = []
